@@ -62,7 +62,7 @@ DECIDES += (' ROUND 6 — C31-PROBE: a wildcard sub-pattern drops the sub-subjec
             'test of a disjunction passed; tests stored in a local are followed.')
 NOT_DECIDED += (' ROUND 6 — not decided: that the lookup made for an element is the one CPython makes (get() vs another method; only its presence and its independence from wantedness are '
                 'decided); a shortcut in a separate pre-pass over the slot array ("no value wanted -> match") — telling it from a harmless initialisation loop needs the correlation of two '
-                'loops with the same bound; exactness of validations of values read from the class (__match_args__ must be an exact tuple of exact str in CPython): these are locals, not the '
+                'loops with the same bound; the order of get() calls / value sub-pattern tests of mapping patterns that mix literal and value keys (validate_keys sorts literal keys first; observed deviation, design-level, see FINDING_1.md); C31-SUBORDER (class sub-patterns matched positional-first) is written but pending FINDING_1; exactness of validations of values read from the class (__match_args__ must be an exact tuple of exact str in CPython): these are locals, not the '
                 'subject parameter, and the file legitimately tests another such local (__mro__) inexactly.')
 MUTANTS_ROUND6 = 'mutants/C31/i3-*: breaking ones reported except three declined (see their meta.json), behaviour-preserving rewrites all silent; /tmp/strengthen6/I3/REPORT.md'
 
@@ -107,6 +107,7 @@ SILENT_EDITS = [   # behaviour-preserving, all exit 0
 def run(ctx):
     from ..rules import parlists, sC31, s4C31
     sym = sC31.Sym(ctx)
+    # s4C31.rule_suborder(ctx, sym)  # pending finding (/tmp/strengthen6/I3/FINDING_1.md): keyword sub-patterns of a class pattern are matched before the positional ones on the unmodified tree
     # sC31.rule_nullpath(ctx): armed after the repair 0d41e88f0 (it reported __Pyx__MatchCase_ClassPositional of the unmodified tree, see FINDING_1)
     # sC31.rule_asbind(ctx, sym): armed after the repair 423ab91e8 (`case 1.0 as x` binds the literal instead of the subject, see FINDING_3)
     return [pC31.rule_hooks(ctx), pC31.rule_temps(ctx), typed.rule_I3(ctx, modules=('MatchCaseNodes',), floor=10),
